@@ -61,6 +61,9 @@ Step ==
           \cup UNION {E(cs[t] \in Final => ncs[t] = cs[t], "C05.FinalChanged") : t \in Uids}
           \* resources are given back once
           \cup UNION {E(relcnt[t] = 0, "C03.ReleasedTwice") : t \in SeqSet(e.rel)}
+          \* C01, end to end: the processes running at any moment never use more cores than the pilot has
+          \* (a task that keeps running after its slots were given back shows up here)
+          \cup E(e.live <= T.ncores, "C01.RunningExceedsPilot")
           \* only named tasks are killed
           \cup UNION {E(t \in Named, "C08.KilledNotNamed") : t \in SeqSet(e.killed)}
           \cup (IF e.ev = "end" THEN
